@@ -33,6 +33,7 @@ import VotelibProofs.Lemmas.PermStar4
 import VotelibProofs.Lemmas.RenameStar
 import VotelibProofs.Lemmas.RenameBucklin2
 import VotelibProofs.Lemmas.RenameBenham
+import VotelibProofs.Lemmas.RenameTidemanN
 import VotelibProofs.Lemmas.RenameBaldwin
 import VotelibProofs.Lemmas.PermSymmetric3
 namespace VL.C10
@@ -574,6 +575,16 @@ theorem benham_rename (σ : Cand → Cand) (hσ : Function.Injective σ) {p : Co
 theorem tideman_rename (σ : Cand → Cand) (hσ : Function.Injective σ) (smith : Bool) {p : Condorcet.Profile} (hp : Perm.Hyb.CanonP p) :
     Condorcet.tideman smith (Perm.Hyb.renProfileH σ p) = (Condorcet.tideman smith p).map (List.map (renSlot σ)) :=
   Perm.tideman_ren σ hσ smith hp
+
+/-- **Tideman alternative, any number of seats (`tidemanN`): ballot-order independence** — the very same answer -/
+theorem tideman_n_perm (smith : Bool) {p₁ p₂ : Condorcet.Profile} (h : p₁.Perm p₂) (n : Nat) :
+    Condorcet.tidemanN smith p₁ n = Condorcet.tidemanN smith p₂ n := Perm.tidemanN_perm smith h n
+
+/-- **Tideman alternative, any number of seats: renaming equivariance** — the renamed answer exactly -/
+theorem tideman_n_rename (σ : Cand → Cand) (hσ : Function.Injective σ) (smith : Bool) {p : Condorcet.Profile}
+    (hp : Perm.Hyb.CanonP p) (n : Nat) :
+    Condorcet.tidemanN smith (Perm.Hyb.renProfileH σ p) n = (Condorcet.tidemanN smith p n).map (List.map (renSlot σ)) :=
+  Perm.tidemanN_ren σ hσ smith hp n
 
 /-- **STAR: renaming equivariance** for every injective renaming (non-negative ballot counts) -/
 theorem star_rename (σ : Cand → Cand) (hσ : Function.Injective σ) (ac : Nat) (af : Rat) (cfg : Score.Cfg) (p : Score.SProfile)
